@@ -89,6 +89,7 @@ Lemma csv_facts s : mem s (post_states t) = true -> waiting_state t s = true ->
   watch_state t s = true /\ exists n, next_state t s Ev_Csv = Some n /\ csv_spend_state t n = true.
 Proof.
   intros Hs Hw. unfold csv_table_ok in CK. apply andb_true_iff in CK. destruct CK as [C1 _].
+  apply andb_true_iff in C1. destruct C1 as [C1 _].
   apply mem_In in Hs. apply (forallb_In _ _ _ C1) in Hs. rewrite Hw in Hs.
   apply andb_true_iff in Hs. destruct Hs as [Hws Hn]. split; [exact Hws|].
   destruct (next_state t s Ev_Csv) as [n|]; [|discriminate]. exists n. split; [reflexivity|].
@@ -143,6 +144,7 @@ Theorem post_states_classified s : mem s (post_states t) = true ->
                waiting_state t a = true /\ waiting_state t b = true).
 Proof.
   intros Hs. pose proof CK as C. unfold csv_table_ok in C. apply andb_true_iff in C. destruct C as [C1 _].
+  apply andb_true_iff in C1. destruct C1 as [C1 _].
   pose proof Hs as Hs'. apply mem_In in Hs'. apply (forallb_In _ _ _ C1) in Hs'.
   destruct (waiting_state t s) eqn:Hw.
   - left. apply andb_true_iff in Hs'. destruct Hs' as [A _]. auto.
@@ -152,6 +154,27 @@ Proof.
       destruct (next_state t s Ev_Succeeded) as [a|]; [|discriminate].
       destruct (next_state t s Ev_Failed) as [b|]; [|discriminate].
       apply andb_true_iff in Hx. destruct Hx as [A B]. exists a, b. auto.
+Qed.
+
+(* (c2, recovery) after a restart, RecoverSwaps on a swap stored in a waiting state registers the watch again *)
+Theorem recover_watches m w r w' es x pol :
+  mem (m_cur m) (post_states t) = true -> waiting_state t (m_cur m) = true -> is_fin terminal (m_cur m) = false ->
+  d_otb (m_data m) = Some x -> chain_known (m_data m) = true -> timelock_policy tc (m_data m) = Some pol ->
+  hd false (q_script w) = true ->
+  recover tc dec t m w = (r, w', es) ->
+  In (EWatchCsv (ob_txid x) (ob_vout x) (d_start_height (m_data m)) (p_csv pol)) es.
+Proof.
+  intros Hs Hw Hnf Ho Hc Hp Hq H.
+  destruct (csv_facts _ Hs Hw) as (Hws & _).
+  pose proof CK as C. unfold csv_table_ok in C. apply andb_true_iff in C. destruct C as [_ C3].
+  pose proof Hs as Hs'. apply mem_In in Hs'. apply (forallb_In _ _ _ C3) in Hs'. rewrite Hnf in Hs'. cbn [orb] in Hs'.
+  unfold watch_state, state_tree in Hws.
+  unfold recover in H. destruct (lookup_state t (m_cur m)) as [sd|] eqn:Hl; [|discriminate].
+  destruct (st_action sd) as [act|] eqn:Ha; [|discriminate].
+  apply negb_true_iff in Hs'. rewrite Hs' in H.
+  apply bind_inv in H. destruct H as ([ev' d'] & w1 & e1 & e2 & Hex & _ & ->).
+  apply in_or_app. left.
+  destruct (watch_tree_registers _ _ _ _ _ _ _ _ Hws Ho Hc Hp Hq Hex) as [_ Hin]. exact Hin.
 Qed.
 
 End Csv.
@@ -189,6 +212,18 @@ Theorem post_states_classified_gen : forall t, In t maker_tables -> forall s, me
 Proof.
   intros t Hin s. destruct (maker_tables_ok t Hin) as [_ Hck].
   exact (post_states_classified t terminal_states Hck s).
+Qed.
+
+Theorem recover_watches_gen : forall t, In t maker_tables ->
+  forall dec m w r w' es x pol,
+  mem (m_cur m) (post_states t) = true -> waiting_state t (m_cur m) = true -> is_fin terminal_states (m_cur m) = false ->
+  d_otb (m_data m) = Some x -> chain_known (m_data m) = true -> timelock_policy tl_consts_gen (m_data m) = Some pol ->
+  hd false (q_script w) = true ->
+  recover tl_consts_gen dec t m w = (r, w', es) ->
+  In (EWatchCsv (ob_txid x) (ob_vout x) (d_start_height (m_data m)) (p_csv pol)) es.
+Proof.
+  intros t Hin dec m w r w' es x pol. destruct (maker_tables_ok t Hin) as [_ Hck].
+  exact (recover_watches tl_consts_gen dec t terminal_states Hck m w r w' es x pol).
 Qed.
 
 (* the CSV depths the watch is registered with are the policy constants of the code *)
